@@ -120,7 +120,7 @@ def checkSig {σ : Type} (set : Sig → σ → σ) (v : Bytes) (s : σ) : Outcom
 
 /-- `decodeBytes` : SortRecords, NewStream, `Decode` (pinned) / `DecodeP2P` (repaired) -/
 def decodeBytes {σ : Type} (cfg : Cfg) (recs : List (Rec σ)) (b : Bytes) (s : σ) : Outcome σ :=
-  match decodeStream cfg.p2pSub cfg.maxAlloc false recs b s with
+  match decodeStream cfg.p2pSub cfg.maxAlloc cfg.typesSub recs b s with
   | .ok (s', _) => .ok s'
   | .err e => .err e
   | .panic => .panic
@@ -228,11 +228,12 @@ def deserializeTicket (cfg : Cfg) (b : Bytes) : Outcome Ticket :=
 /-- The decode variants the current source of sidecar/tlv.go calls (regenerated fact). -/
 def repoCfg (maxAlloc : Nat) : Cfg :=
   { p2pTop := DeserializeTicketCall == "DecodeWithParsedTypesP2P",
-    p2pSub := decodeBytesCall == "DecodeP2P",
+    p2pSub := decodeBytesCall == "DecodeP2P" || decodeBytesCall == "DecodeWithParsedTypesP2P",
+    typesSub := decodeBytesCall == "DecodeWithParsedTypes" || decodeBytesCall == "DecodeWithParsedTypesP2P",
     maxAlloc := maxAlloc }
 
 /-- The pinned (unrepaired) code: uncapped decoders everywhere. -/
-def pinnedCfg (maxAlloc : Nat) : Cfg := { p2pTop := false, p2pSub := false, maxAlloc := maxAlloc }
+def pinnedCfg (maxAlloc : Nat) : Cfg := { p2pTop := false, p2pSub := false, typesSub := false, maxAlloc := maxAlloc }
 
 /-! ### string form (sidecar/codec.go) -/
 
